@@ -51,7 +51,7 @@ func init() {
 		Assumptions: append([]string{"/verif/spec/setters.json transcribes the API setters of the standard"}, commonAssumptions...)})
 	describe(&PropertyDoc{ID: "C06",
 		Explanation: "Structural facts behind the resolution laws.",
-		Decides:     []string{"the three resolution routes pass identical arguments into one algorithm, on the receiver's own parser (FLOW-funnel)", "'#f' against an opaque base inherits exactly scheme, path, query and is the only accepted relative form; '?q', '#f', empty inherit exactly the listed components; a scheme-less reference always takes the base's scheme (SM-inherit / SM-failpoints rows)", "the next-state relation of the no-scheme, relative, relative-slash and special-relative-or-authority states per class of code point, incl. failure for anything but '#' against an opaque base (SM-transitions)", "every URL a resolution route hands out is the result of the one algorithm: no path bypasses it (FLOW-funnel, must-pass-through)"},
+		Decides:     []string{"the three resolution routes pass identical arguments into one algorithm, on the receiver's own parser (FLOW-funnel)", "'#f' against an opaque base inherits exactly scheme, path, query and is the only accepted relative form; '?q', '#f', empty inherit exactly the listed components; a scheme-less reference always takes the base's scheme (SM-inherit / SM-failpoints rows)", "the next-state relation of the no-scheme, relative, relative-slash and special-relative-or-authority states per class of code point, incl. failure for anything but '#' against an opaque base (SM-transitions)", "every URL a resolution route hands out is the result of the one algorithm: no path bypasses it (FLOW-funnel, must-pass-through)", "Clone, from which resolution against a URL value starts, fills every field of the copy from the same field of the original and hands the copy to no function that rewrites it (EFF-clonefaithful)"},
 		NotDecided:  []string{"that the serialization of u resolves to u (C03 plus value behaviour)"},
 		Assumptions: commonAssumptions})
 	describe(&PropertyDoc{ID: "C07",
@@ -61,7 +61,7 @@ func init() {
 		Assumptions: commonAssumptions})
 	describe(&PropertyDoc{ID: "C08",
 		Explanation: "Structural facts of IPv6 host acceptance, and two abstract interpretations over finite partitions: the serializer per zero / non-zero pattern of the pieces, the parser's tail per end state.",
-		Decides:     []string{"exactly the first and last byte are removed from a host tested to start with '[' and end with ']' (FLOW-brackets)", "every validation error of the IPv6 parser is an aborting failure; the 13 failure points are the standard's (SM-failpoints)", "multiply-and-add accumulators of the address parser are bounded inside their loops: they cannot wrap (FLOW-accum)", "hex digit value functions are exact on 0-9, a-f, A-F (TAB-hexval)", "what the hex-piece accumulator can reach in its constant number of rounds fits the type it is narrowed to (FLOW-accum)", "the counter values for which the parser rejects - ninth piece, dotted part without two free pieces, '.' after zero digits, fifth dotted number or fewer than four, digit after a leading 0, dotted number above 255, fewer than eight pieces without '::' - are exactly the standard's (TAB-thresholds)", "the serializer uses a piece only to compare it with 0 and to format it in base 16; for each of the 256 zero/non-zero patterns its output has the standard's pieces, separators and '::' (TAB-ipv6ser, abstract interpretation)", "the part of the parser behind its last read of the text: too-few-pieces failure, placement of the pieces around '::', brackets — for each of the 45 (pieces read, place of '::') states, pieces as opaque tokens (TAB-ipv6place, abstract interpretation)"},
+		Decides:     []string{"exactly the first and last byte are removed from a host tested to start with '[' and end with ']' (FLOW-brackets)", "every validation error of the IPv6 parser is an aborting failure; the 13 failure points are the standard's (SM-failpoints)", "multiply-and-add accumulators of the address parser are bounded inside their loops: they cannot wrap (FLOW-accum)", "hex digit value functions are exact on 0-9, a-f, A-F (TAB-hexval)", "what the hex-piece accumulator can reach in its constant number of rounds fits the type it is narrowed to (FLOW-accum)", "the counter values for which the parser rejects - ninth piece, dotted part without two free pieces, '.' after zero digits, fifth dotted number or fewer than four, digit after a leading 0, dotted number above 255, fewer than eight pieces without '::' - are exactly the standard's (TAB-thresholds)", "the serializer uses a piece only to compare it with 0 and to format it in base 16; for each of the 256 zero/non-zero patterns its output has the standard's pieces, separators and '::' (TAB-ipv6ser, abstract interpretation)", "the part of the parser behind its last read of the text: too-few-pieces failure, placement of the pieces around '::', brackets — for each of the 45 (pieces read, place of '::') states, pieces as opaque tokens (TAB-ipv6place, abstract interpretation)", "a digit value computed in place is the digit's value on every member of the set its dominating membership test admits; a digit parsed by strconv is parsed in the radix it is scaled by (TAB-hexval)"},
 		NotDecided:  []string{"the reading loop's per-character behaviour beyond its failure points", "that the hex text of a piece is minimal lower case (strconv's contract)"},
 		Assumptions: append([]string{"TAB-ipv6place: at the end of the reading loop the pieces from index pieceIdx on are still zero and 0 ≤ pieceIdx ≤ 8 (reviewed; the rule itself checks that compress is only ever set to the piece count or the one 'none' constant)"}, commonAssumptions...)})
 	describe(&PropertyDoc{ID: "C09",
@@ -76,7 +76,7 @@ func init() {
 		Assumptions: commonAssumptions})
 	describe(&PropertyDoc{ID: "C11",
 		Explanation: "Structural facts of the form-urlencoded codec and of sorting.",
-		Decides:     []string{"'+' is translated before percent-decoding, for name and value (FLOW-urlenc)", "pairs split on '&', name/value at the first '=' (TAB-urlsplit)", "the serializer's escape set must contain & = + % (TAB-urlenc: known finding)", "sorting is stable and compares what the standard compares (OPT-sortcmp)"},
+		Decides:     []string{"'+' is translated before percent-decoding, for name and value (FLOW-urlenc)", "pairs split on '&', name/value at the first '=' (TAB-urlsplit)", "the serializer's escape set must contain & = + % (TAB-urlenc: known finding)", "sorting is stable and compares what the standard compares (OPT-sortcmp)", "on the serialiser's path names and values are read as code points: a byte read by index is only compared unless known to be ASCII or the string passed utf8.ValidString (FLOW-utf8)"},
 		NotDecided:  []string{"list semantics of append/delete/set/get", "UTF-8 replacement"},
 		Assumptions: commonAssumptions})
 	describe(&PropertyDoc{ID: "C12",
@@ -86,7 +86,7 @@ func init() {
 		Assumptions: commonAssumptions})
 	describe(&PropertyDoc{ID: "C13",
 		Explanation: "Ownership facts from interprocedural effect summaries (sound for 'no shared write', not complete).",
-		Decides:     []string{"resolving never writes memory reachable from the base (EFF-read)", "results of Clone, (*Url).Parse, BasicParser reach no memory of the original/base except frozen configuration and never-written referents (EFF-result)", "a cloned list writes through to the clone (EFF-backptr)"},
+		Decides:     []string{"resolving never writes memory reachable from the base (EFF-read)", "results of Clone, (*Url).Parse, BasicParser reach no memory of the original/base except frozen configuration and never-written referents (EFF-result)", "a cloned list writes through to the clone (EFF-backptr)", "copy functions fill each field of the copy from the same field of the original and hand the copy to no function that rewrites it (EFF-clonefaithful)"},
 		NotDecided:  []string{"that the operated-on value reflects the operations"},
 		Assumptions: commonAssumptions})
 	describe(&PropertyDoc{ID: "C14",
@@ -116,7 +116,7 @@ func init() {
 		Assumptions: commonAssumptions})
 	describe(&PropertyDoc{ID: "C20",
 		Explanation: "Absence of the two super-linear mechanisms the anchors name, in module code.",
-		Decides:     []string{"no string accumulated by concatenation around an input-dependent loop (COST-concat)", "no O(n) copy inside such a loop; O(remaining-input) cursor helpers only on paths that leave their state (COST-copy, SM-onevisit)", "functions that walk a URL component (path, parameter list, serialisation) are called in the state machine only on paths that leave the state (SM-onevisit)"},
+		Decides:     []string{"no string accumulated by concatenation around an input-dependent loop (COST-concat)", "no O(n) copy inside such a loop; O(remaining-input) cursor helpers only on paths that leave their state (COST-copy, SM-onevisit)", "functions that walk a URL component (path, parameter list, serialisation) are called in the state machine only on paths that leave the state (SM-onevisit)", "reporting a validation error costs O(1): the input string an error quotes is only stored and handed on between the handlers and the constructors (COST-report)"},
 		NotDecided:  []string{"the overall bound (amortised re-scans after rewind, allocation volume, cost inside dependencies such as IDNA)"},
 		Assumptions: commonAssumptions})
 }
